@@ -783,7 +783,15 @@ func (o *c03obs) Observe(ev *PEvent, ps *PState) (string, string) {
 	ntl := ev.Flags&lz.NoTrailingLiterals != 0
 	if !ntl {
 		if bl := int64(len(blk.Literals)) + sumMatch; bl != ev.N {
-			return "n-differs-from-Len", fmt.Sprintf("flags 0: n=%d but Block.Len()=%d", ev.N, bl)
+			return "n-differs-from-Len", fmt.Sprintf("flags 0: n=%d but the block has %d literals and matches of %d bytes", ev.N, len(blk.Literals), sumMatch)
+		}
+		// the library's own Block.Len is what the statement refers to
+		var libLen int64
+		if pv := call(func() { libLen = blk.Len() }); pv != nil {
+			return "panic", "Block.Len: " + fmtPanic(pv)
+		}
+		if libLen != ev.N {
+			return "n-differs-from-Len", fmt.Sprintf("flags 0: n=%d but Block.Len()=%d", ev.N, libLen)
 		}
 	}
 	if ev.PreW+ev.N > int64(len(ps.Fed)) || !bytes.Equal(ev.NewDec[ev.PreW:], ps.Fed[ev.PreW:ev.PreW+ev.N]) {
